@@ -94,6 +94,9 @@ class Interp:
         if isinstance(v, LSet):
             return V.VSet(v.seq)
         if isinstance(v, SObj):
+            if getattr(v, "by_ref", False):
+                # an object that is only passed around (never inspected through the value): an opaque reference
+                return z3.Const(f"ref!{v.name}", V.Val)
             names = sorted(v.attrs)
             return V.VObj(z3.IntVal(self.program.class_id(v.cls)), V.mk_seq([self.to_z(v.attrs[n]) for n in names]))
         if isinstance(v, UnknownMethod):
@@ -885,6 +888,13 @@ class Interp:
             f = self.class_lookup(v.cls, "__iter__")
             if f is None:
                 raise PyRaise("TypeError", msg="object is not iterable")
+            if "FilteredDataLike" in [c.__name__ for c in v.cls.__mro__] and "result" in v.attrs:
+                self.check_generator(v.cls)
+                items = self.try_iter_concrete(v.attrs["result"])
+                if items is None:
+                    return None               # symbolic number of items: the loop machinery takes over (pyvc/loops.py)
+                item_cls = self.program.modules["valida.data"].FilteredDataItem
+                return [self.call_class(item_cls, [v, C(i)], {}) for i in range(len(items))]
             return self.try_iter_concrete(self.iter_of_sobj(v))
         return None
 
@@ -892,11 +902,28 @@ class Interp:
         # the three trivial generators of the code base (DESIGN §2.1): Data.__iter__, FilteredDataLike.__iter__, DataPath.__iter__
         n = v.cls.__name__
         mro = [c.__name__ for c in v.cls.__mro__]
+        self.check_generator(v.cls)
         if "DataPath" in mro:
             return v.attrs["parts"]
         if "Data" in mro:
             return self.call_function(self.class_lookup(v.cls, "keys"), [v], {})
         raise Unsupported(f"iteration over {n}")
+
+    GENERATORS = {
+        "DataPath": "for i in self.parts:\n    yield i",
+        "Data": "for idx in range(len(self)):\n    yield self.keys()[idx]",
+        "FilteredDataLike": "for idx, _ in enumerate(self.result):\n    yield FilteredDataItem(self, idx)",
+    }
+
+    def check_generator(self, cls):
+        """The three generators are not executed but replaced by the sequences they yield; that replacement is only valid
+        for the text it was written for, so the text is compared on every use."""
+        f = self.class_lookup(cls, "__iter__")
+        node = self.program.node_of(f)
+        owner = f.__qualname__.split(".")[0]
+        body = "\n".join(ast.unparse(st) for st in node.body if not (isinstance(st, ast.Expr) and isinstance(st.value, ast.Constant)))
+        if self.GENERATORS.get(owner) != body:
+            raise Unsupported(f"{owner}.__iter__ is not the generator the executor knows ({body!r})")
 
     def iter_concrete(self, v):
         items = self.try_iter_concrete(v)
@@ -957,6 +984,15 @@ class Interp:
         if isinstance(obj, SObj):
             if name in obj.attrs:
                 return obj.attrs[name]
+            if self.verifying:
+                # the contract under proof may route a method of a class through an interface contract
+                from .contracts import INTERFACES
+                vc = self.contracts.get(self.verifying)
+                ui = getattr(vc, "uses_interfaces", None) or {}
+                for c in obj.cls.__mro__:
+                    iname = ui.get(f"{c.__name__}.{name}")
+                    if iname in INTERFACES:
+                        return InterfaceMethod(iname, obj)
             raw = self.class_lookup(obj.cls, name)
             if raw is None:
                 if name == "__class__":
